@@ -15,9 +15,9 @@ GenNext ==
   \/ \E U \in Functions1(Writable) : Update(U) /\ Rec1([op |-> "Update", u |-> U])
   \* batched updates: both contents from the small pool (keeps the branching factor simulable)
   \/ \E a, b \in Writable : a # b /\ \E U \in [{a, b} -> PoolPairs] : Update(U) /\ Rec1([op |-> "Update", u |-> U])
-  \/ \E o, n \in Writable : o # n /\ Rename(<< <<o, n>> >>) /\ Rec1([op |-> "Rename", pairs |-> << <<o, n>> >>])
+  \/ \E o, n \in Writable : Rename(<< <<o, n>> >>) /\ Rec1([op |-> "Rename", pairs |-> << <<o, n>> >>])
   \/ \E o1, n1, o2, n2 \in Writable :
-        o1 # n1 /\ o2 # n2 /\ o1 # o2 /\ Rename(<< <<o1, n1>>, <<o2, n2>> >>)
+        o1 # o2 /\ Rename(<< <<o1, n1>>, <<o2, n2>> >>)
         /\ Rec1([op |-> "Rename", pairs |-> << <<o1, n1>>, <<o2, n2>> >>])
   \/ \E S \in (SUBSET Writable) \ {{}} : Remove(S) /\ Rec1([op |-> "Remove", mods |-> SetToSeq(S)])
 
